@@ -306,6 +306,11 @@ def judgeRestart (idx : Nat) (hist : List Json) (b a : Json) (later : List (Json
             [⟨true, s!"outputs-not-restored: {at_}: {showKey k} ({st}) had completed outputs {(fld t "out").compress}, none after the restart"⟩]
           else if fld u "out" == Json.arr #[] && outAt ≤ (if mergeAt < bornAt then bornAt else mergeAt) then
             [⟨true, s!"new-row-drops-outputs: {at_}: {showKey k} ({st}, flows {(fld t "fl").compress}) has completed nothing since it {if mergeAt < bornAt then "entered the pool with the outputs of its history" else "got a flow merged in"} (outputs {(fld t "out").compress}); none of these outputs after the restart"⟩]
+          else if fld u "out" == Json.arr #[] && (match rowOf rows k (fld t "fl") with
+              | some (_ :: _ :: _ :: _ :: _ :: _ :: outs :: _) => outs == Json.arr #[]
+              | _ => false) then
+            -- a merge of flow numbers the task already carries re-creates its rows too (no change of its flows to see)
+            [⟨true, s!"new-row-drops-outputs: {at_}: {showKey k} ({st}, flows {(fld t "fl").compress}) had completed {(fld t "out").compress} while the task_outputs row of exactly its flows had been re-created empty (a merge of flow numbers it already carries); none of these outputs after the restart"⟩]
           else [⟨false, s!"outputs: {at_}: {showKey k} ({st}, flows {(fld t "fl").compress}) completed outputs {(fld t "out").compress} restored as {(fld u "out").compress}"⟩]
         else []
       let c6 : List Fail :=
